@@ -19,11 +19,10 @@ RULE = ("sess: generated POP3 dialogues (0-8 messages, hostile message sources i
         "evictions, alternating mem and file store; plus an enumeration of all pairs of transaction commands on a 2-message mailbox and a "
         "regression corpus. distinct = distinct input line; non-trivial = the session logs in and issues at least one further command line.")
 TRUSTED = ["command words are compared after Go's strings.ToUpper: modelled for ASCII plus U+0131/U+017F (the only runes whose upper case is ASCII)",
-           "store behaviour as modelled in Model/Pop3.v (mailbox = list in delivery order, ids unique per mailbox, file-store Source() fails once the message is removed, mem-store Source() never fails)"]
+           "the store abstraction of Model/Pop3.v is proved to be C07's StoreSpec read through abs (pop3_over_storespec, storespec_*; every cap and size limit), and StoreSpec is what C07 proves both store models refine (pop3_over_store_models); what stays modelled rather than proved is the one difference between the back-ends that StoreSpec does not speak about: Source() of a message object whose message has been removed fails on the file store and still succeeds on the mem store (sampled by the correspondence run)"]
 ASSUMPTIONS = ["the harness's scripted net.Conn hands the server one line per Read and never blocks writes; deadlines are not exercised",
                "TLS disabled (config.POP3.TLSEnabled=false, ForceTLS=false)"]
-NOT_PROVED = ["refinement of the Go stores by the store abstraction of Model/Pop3.v (sampled by the correspondence run; C07 owns the store models)",
-              "behaviour under true concurrency inside one command (a store change while RETR is streaming): not modelled"]
+NOT_PROVED = ["behaviour under true concurrency inside one command (a store change while RETR is streaming): not modelled (searched by the -race stress stream)"]
 
 
 def _events(ins):
